@@ -3,6 +3,7 @@ package main
 import (
 	"fmt"
 	"go/constant"
+	"go/parser"
 	"go/token"
 	"go/types"
 	"math"
@@ -511,6 +512,27 @@ func (f *Frame) convert(in *ssa.Convert) {
 		}
 	case isString(from) && isString(to):
 		f.setVal(in, x)
+	case isString(from) && isRuneSlice(to) && !e.bv():
+		// []rune(s): a fresh array holding go.runes(s), of length go.runecount(s) (uninterpreted functions of s)
+		e.runeDecls()
+		elem := to.Underlying().(*types.Slice).Elem()
+		ref := e.allocRef(f.st)
+		comp := elemCompName(e, elem)
+		h := e.comp(f.st, comp, e.elemSort(elem))
+		e.setComp(f.st, comp, fmt.Sprintf("(store %s %s (go.runes %s))", h, ref, x))
+		n := fmt.Sprintf("(go.runecount %s)", x)
+		e.assume(f.reach, fmt.Sprintf("(and (<= 0 %s) (<= %s (str.len %s)))", n, n, x))
+		f.setVal(in, fmt.Sprintf("(mkSlice %s 0 %s %s)", ref, n, n))
+	case isRuneSlice(from) && isString(to) && !e.bv():
+		// string(rs): an uninterpreted function of the backing row, the offset and the length
+		e.runeDecls()
+		elem := from.Underlying().(*types.Slice).Elem()
+		h := e.comp(f.st, elemCompName(e, elem), e.elemSort(elem))
+		f.setVal(in, fmt.Sprintf("(go.runes2str (select %s (s_arr %s)) (s_off %s) (s_len %s))", h, x, x, x))
+	case isInteger(from) && isString(to) && !e.bv():
+		// string(r): the UTF-8 encoding of one code point
+		e.runeDecls()
+		f.setVal(in, fmt.Sprintf("(go.rune2str %s)", x))
 	case isPointerLike(from) && isPointerLike(to):
 		f.setVal(in, x)
 	default:
@@ -1512,13 +1534,30 @@ func (f *Frame) fieldGuardCheck(in ssa.Instruction) {
 		return
 	}
 	st := fa.X.Type().Underlying().(*types.Pointer).Elem()
-	lockComp := fieldComp(st, lockField)
-	fn := "faddr_" + lockComp
-	if !e.ufSeen[fn] {
-		e.ufSeen[fn] = true
-		e.ufDecls = append(e.ufDecls, fmt.Sprintf("(declare-fun %s (Int) Int)", fn))
+	var lock string
+	if strings.HasPrefix(lockField, "global:") {
+		// guarded by a package-level lock: "global:<expr>" evaluated in the struct's package
+		named := st.(*types.Named)
+		x, err := parser.ParseExpr(strings.TrimPrefix(lockField, "global:"))
+		if err != nil {
+			e.P.contractError("guardedfield %s: %v", lockField, err)
+			return
+		}
+		errs := []string{}
+		env := &CEnv{e: e, vars: map[string]CVal{}, st: f.st, old: f.st, pkg: named.Obj().Pkg(), errs: &errs}
+		lock = env.ev(x).S
+		for _, m := range errs {
+			e.P.contractError("guardedfield %s: %s", lockField, m)
+		}
+	} else {
+		lockComp := fieldComp(st, lockField)
+		fn := "faddr_" + lockComp
+		if !e.ufSeen[fn] {
+			e.ufSeen[fn] = true
+			e.ufDecls = append(e.ufDecls, fmt.Sprintf("(declare-fun %s (Int) Int)", fn))
+		}
+		lock = fmt.Sprintf("(%s %s)", fn, p.ref)
 	}
-	lock := fmt.Sprintf("(%s %s)", fn, p.ref)
 	w := e.load(f.st, &Place{kind: "field", comp: "GH_lock_w", ref: lock, typ: types.Typ[types.Bool]})
 	goal, kind := w, "w"
 	if !write {
@@ -1609,4 +1648,26 @@ func (f *Frame) chanSend(ch, val string, cht, valt types.Type, in ssa.Instructio
 		e.safetyOrd["chansend"]++
 		e.oblige("guard", fmt.Sprintf("%s#guard[chansend#%d.%s]", e.unit.Key(), e.safetyOrd["chansend"], lab), lab, f.reach, goal, e.P.pos(in.Pos()))
 	}
+}
+
+func isRuneSlice(t types.Type) bool {
+	sl, ok := t.Underlying().(*types.Slice)
+	if !ok {
+		return false
+	}
+	b, ok := sl.Elem().Underlying().(*types.Basic)
+	return ok && b.Kind() == types.Int32
+}
+
+// runeDecls declares the uninterpreted functions of the string <-> []rune model (mode int only).
+func (e *Enc) runeDecls() {
+	if e.ufSeen["go.runes"] {
+		return
+	}
+	e.ufSeen["go.runes"] = true
+	e.ufDecls = append(e.ufDecls,
+		"(declare-fun go.runes (String) (Array Int Int))",
+		"(declare-fun go.runecount (String) Int)",
+		"(declare-fun go.runes2str ((Array Int Int) Int Int) String)",
+		"(declare-fun go.rune2str (Int) String)")
 }
